@@ -12,6 +12,7 @@ from . import c01_detached as cdet
 from . import c01_gen as cgen
 from . import c01_graph as cg
 from . import c01_outputs as cout
+from . import c01_overrides as cov
 from . import c01_oracle as co
 from . import common, e2, e3, e3_gen
 
@@ -22,7 +23,7 @@ RULE = ("E3 differential oracle: seeded generator of projects (static files, sta
         "globs with one step per match, chains / diamonds, multiple and volatile outputs, env vars, optional "
         "steps, resources, script steps that amend inputs / outputs / env, sub-plans with hold/release) and "
         "histories of 1-6 phases of edits (change / add / delete a source; drop, re-add, redefine or add "
-        "steps, declarations and sub-plans; change or unset an env var; change ALL tracked variables or all "
+        "steps, declarations and sub-plans; add, change, remove one or remove ALL environment overrides (leading VAR=value words / env_overrides argument) of an otherwise identical step whose command reads the variable; change or unset an env var; change ALL tracked variables or all "
         "source inputs (same size) of one step in one phase and put a SUBSET back in a later phase -- steps "
         "track up to 3 declared and / or amended variables; scripts edited so that they amend another set of "
         "variables; a family in which PRODUCTS of steps are modified, deleted, rewritten with identical bytes or "
@@ -55,7 +56,7 @@ ASSUMPTIONS = [
     "counts as not built when the cleanup pass was skipped, a DRAINED build is compared by return-code class",
 ]
 
-KNOWN_NAMED = [co.SIG_D4, co.SIG_D9, co.SIG_D8, co.SIG_F1, co.SIG_F2, co.SIG_F3, co.SIG_F4, co.SIG_F5, co.SIG_F6, co.SIG_F7, co.SIG_F8, co.SIG_F9]
+KNOWN_NAMED = [co.SIG_D4, co.SIG_D9, co.SIG_D8, co.SIG_F1, co.SIG_F2, co.SIG_F3, co.SIG_F4, co.SIG_F5, co.SIG_F6, co.SIG_F7, co.SIG_F8, co.SIG_F9, co.SIG_F10]
 
 
 def generate(ctx):
@@ -303,6 +304,9 @@ def guard_cases() -> dict:
                        program={"scripts": {"plan.py": mainp, "p1.py": [tt]}, "commands": {}})
         out["subplan-input-deleted" + name] = co.case_json(
             p, [{"edits": [{"op": "delete", "path": "data/cfg.txt"}] + extra}])
+    # environment overrides of a step removed / changed / added by a plan edit (every layout and
+    # form, c01_overrides.guard_cases): F10 where nothing else marks the recycled step
+    out.update(cov.guard_cases())
     # the user touches PRODUCTS between two builds: an intermediate / final output is modified,
     # deleted, written again with the same bytes, or merely touched (restart and watch flavour);
     # a build from scratch does not care what the output looked like before
@@ -408,6 +412,34 @@ def _run_output(i_seed):
             if case["flavour"] != "watch":
                 raise
             r = co.run_case(dict(case, flavour="restart"))
+    except (e3.E3Error, OSError) as exc:
+        out["error"] = f"{type(exc).__name__}: {str(exc)[:300]}"
+        return out
+    sigs = co.signatures(r["inc"], r["scr"], r["diffs"], case, r["results"][:-1])
+    out["sigs"] = {k: [[d["kind"], d["key"], d["a"], d["b"]] for d in v[:6]] for k, v in sigs.items()}
+    out["rc"] = [x.returncode for x in r["results"]] + [r["scr"].returncode]
+    out["executed"] = [len(x.commands) for x in r["results"]]
+    out["size"] = co.case_size(case)
+    return out
+
+
+def _override_case(seed, i):
+    return cov.gen_override_case(random.Random(f"c01-overrides-{seed}-{i}"))
+
+
+def _run_override(i_seed):
+    """Worker: one history of the family 'environment overrides of a step edited by the plan'."""
+    i, seed = i_seed
+    case, desc = _override_case(seed, i)
+    out = {"i": i, "desc": desc, "sigs": {}, "error": None}
+    try:
+        try:
+            r = co.run_case(case)
+        except (e3.E3Error, OSError):
+            if case["flavour"] != "watch":
+                raise
+            case = dict(case, flavour="restart")
+            r = co.run_case(case)
     except (e3.E3Error, OSError) as exc:
         out["error"] = f"{type(exc).__name__}: {str(exc)[:300]}"
         return out
@@ -613,6 +645,37 @@ def oracle(ctx, n_override=None):
         case, desc = _output_case(ctx.seed, i)
         reported.add(sig)
         _report(ctx, sig, case, diffs, f"product-edit case {i} ({json.dumps(desc, sort_keys=True)}), "
+                f"{len(lst)} case(s) with this signature")
+    # (2e) generated histories 'the plan adds, changes, removes one or REMOVES ALL environment
+    #      overrides of an otherwise identical step' (leading VAR=value words / env_overrides argument)
+    nv = ctx.scale(30, 400)
+    vres = e3.pool_map(_run_override, [(i, ctx.seed) for i in range(nv)], nproc=ctx.scale(10, 12))
+    vby: dict = {}
+    for res in vres:
+        ctx.count("override_family")
+        if res["error"]:
+            ctx.add_failure("oracle", "harness", "C01:harness-error:" + res["error"].split(":")[0],
+                            f"E3 could not run override case {res['i']}: {res['error']}",
+                            witness={"i": res["i"], "desc": res["desc"]})
+            continue
+        d = res["desc"]
+        ctx.count(f"override:{d['layout']}:{d['kind']}:{d['form']}")
+        for op in d["ops"]:
+            ctx.count("override_edit:" + op)
+        # non-trivial: the overrides were removed at least once and a later build did something
+        ctx.case(("overrides", res["i"], json.dumps(d, sort_keys=True)),
+                 nontrivial="remove-all" in d["ops"] and sum(res["executed"][1:]) > 0)
+        for sig, diffs in res["sigs"].items():
+            ctx.count("sig:" + sig)
+            vby.setdefault(sig, []).append((res["size"], res["i"], diffs))
+    for sig, lst in sorted(vby.items()):
+        if sig in reported:
+            continue
+        lst.sort()
+        size, i, diffs = lst[0]
+        case, desc = _override_case(ctx.seed, i)
+        reported.add(sig)
+        _report(ctx, sig, case, diffs, f"override case {i} ({json.dumps(desc, sort_keys=True)}), "
                 f"{len(lst)} case(s) with this signature")
     # (3) generated histories
     n = n_override or ctx.scale(240, 4000)
